@@ -98,4 +98,43 @@ theorem floor_index_in_range (u : Rat) (N : Nat) (h0 : 0 ≤ u) (h1 : u < 1) (hN
     have : u * ((N : Int) : Rat) < 1 * ((N : Int) : Rat) := by nlinarith
     simpa using this
 
+/-- **acceptance region of one iteration**: whatever the state, the pair of draws `(u1, u2)` adds
+a line of class `x` iff it falls into the rectangle `[x/N, (x+1)/N) × [0, dist x)`; the rectangles of
+different classes are disjoint, all have width `1/N`, and their height is the class's share of the
+original histogram -- so an accepted draw has class `x` with probability `dist x` (uniform draws). -/
+theorem rejIter_accept_iff (dist : Int → Rat) (N : Nat) (hN : 0 < N) (u1 u2 : Rat)
+    (s : StructC08.RS) (x : Int) :
+    ((StructC08.rejIter dist N u1 u2 s).i = s.i + 1 ∧ Rat.floor (u1 * ((N : Int) : Rat)) = x)
+      ↔ ((x : Rat) / N ≤ u1 ∧ u1 < ((x : Rat) + 1) / N ∧ u2 < dist x) := by
+  have hNr : (0 : Rat) < (N : Rat) := by exact_mod_cast hN
+  have hfl : Rat.floor (u1 * ((N : Int) : Rat)) = x ↔ (x : Rat) / N ≤ u1 ∧ u1 < ((x : Rat) + 1) / N := by
+    rw [div_le_iff₀ hNr, lt_div_iff₀ hNr]
+    constructor
+    · intro h
+      have h1 := Rat.le_floor_iff.mp (le_of_eq h.symm)
+      have h2 := Rat.floor_lt_iff.mp (show Rat.floor (u1 * ((N : Int) : Rat)) < x + 1 by omega)
+      push_cast at h1 h2 ⊢
+      exact ⟨h1, h2⟩
+    · rintro ⟨h1, h2⟩
+      have a1 : x ≤ Rat.floor (u1 * ((N : Int) : Rat)) := Rat.le_floor_iff.mpr (by push_cast; exact h1)
+      have a2 : Rat.floor (u1 * ((N : Int) : Rat)) < x + 1 :=
+        Rat.floor_lt_iff.mpr (by push_cast; exact h2)
+      omega
+  simp only [StructC08.rejIter]
+  constructor
+  · rintro ⟨hi, hx⟩
+    refine ⟨(hfl.mp hx).1, (hfl.mp hx).2, ?_⟩
+    by_contra hcon
+    rw [hx, if_neg hcon] at hi
+    omega
+  · rintro ⟨h1, h2, h3⟩
+    have hx := hfl.mpr ⟨h1, h2⟩
+    rw [hx, if_pos h3]
+    exact ⟨rfl, rfl⟩
+
+/-- a rejected pair of draws leaves the state untouched (only the stream advances) -/
+theorem rejIter_reject (dist : Int → Rat) (N : Int) (u1 u2 : Rat) (s : StructC08.RS)
+    (h : ¬ u2 < dist (Rat.floor (u1 * (N : Rat)))) : StructC08.rejIter dist N u1 u2 s = s := by
+  simp only [StructC08.rejIter, if_neg h]
+
 end Pyunicorn.LineDist
